@@ -273,8 +273,13 @@ Theorem render_rules (acc : N -> N -> str) (o : opts) (sl : sls) :
   /\ (forall pre post b, render1 acc o sl (KEnvWrap pre post b) = pre ++ render acc o sl b ++ post)
   (* symbols and specials become their replacement *)
   /\ (forall r p, render1 acc o sl (KSymbol r p) = r) /\ (forall r, render1 acc o sl (KSpecials r) = r)
-  (* accents: every character of the stripped argument text gets the combining mark *)
-  /\ (forall comb k, render1 acc o sl (KAccent comb k)
+  (* accents: every character of the stripped text of the argument's CONTENTS gets the combining mark: a braced
+     argument contributes the rendering of its body (its braces are argument delimiters: never kept, whatever
+     keep_braced_groups says), any other argument (a single token) its own rendering *)
+  /\ (forall comb b, render1 acc o sl (KAccent comb (KGroup b))
+                     = flat_map (fun ch => acc ch comb) (py_strip (render acc o sl b)))
+  /\ (forall comb k, (forall b, k <> KGroup b) ->
+                     render1 acc o sl (KAccent comb k)
                      = flat_map (fun ch => acc ch comb) (py_strip (render1 acc o sl k)))
   (* inline math is inlined, display math is an indented block, under the in-equations policy *)
   /\ (forall dl dr v b, o_math o = MMText ->
@@ -290,6 +295,7 @@ Proof.
   - cbn [render1]. rewrite H, andb_true_r. now destruct (s_blc sl).
   - cbn [render1]. now rewrite H.
   - rewrite render1_group, H. reflexivity.
+  - destruct k; try reflexivity. now elim (H body).
   - rewrite render1_math, H. reflexivity.
   - rewrite render1_math, H. reflexivity.
   - unfold render. cbn [render_from glue render1]. rewrite app_nil_r. reflexivity.
